@@ -147,15 +147,37 @@ def simple_noise(stmt):
     def simple(e):
         if isinstance(e, (ast.Constant, ast.Name)):
             return True
+        if isinstance(e, ast.Attribute) and e.attr == '__name__' and isinstance(e.value, ast.Call):
+            return simple(e.value)
         if isinstance(e, ast.Attribute):
             return isinstance(e.value, ast.Name) and e.value.id in ('self', 'cls')
         if isinstance(e, ast.Call) and isinstance(e.func, ast.Name) and e.func.id in ('str', 'repr', 'len', 'type', 'id') and len(e.args) == 1 and not e.keywords:
             return isinstance(e.args[0], (ast.Name, ast.Constant)) or (e.func.id != 'len' and simple(e.args[0]))
-        if isinstance(e, ast.Attribute) and e.attr == '__name__' and isinstance(e.value, ast.Call):
-            return simple(e.value)
+        if isinstance(e, ast.BinOp) and isinstance(e.op, ast.Mod) and isinstance(e.left, ast.Constant) and isinstance(e.left.value, str):
+            return all(simple(x) for x in (e.right.elts if isinstance(e.right, ast.Tuple) else [e.right]))        # '..%s..' % names
+        if isinstance(e, ast.JoinedStr):
+            return all(isinstance(v, ast.Constant) or (isinstance(v, ast.FormattedValue) and simple(v.value) and v.format_spec is None) for v in e.values)
+        if isinstance(e, ast.Call) and isinstance(e.func, ast.Attribute) and e.func.attr == 'format' and isinstance(e.func.value, ast.Constant):
+            return all(simple(x) for x in e.args) and not e.keywords
         return False
     c = stmt.value
     return all(simple(a) for a in c.args) and all(simple(k.value) for k in c.keywords)
+
+
+def cannot_raise(stmt):
+    """statements of a callback that cannot fail whatever state the object is in: plain stores of names / constants / formatted
+    names to own attributes, logging of such values, calls of own argument-less methods (trusted), tests of own attributes"""
+    def simple_value(e):
+        probe = ast.Expr(value=ast.Call(func=ast.Attribute(value=ast.Name(id='logger', ctx=ast.Load()), attr='debug', ctx=ast.Load()), args=[e], keywords=[]))
+        return simple_noise(probe)
+    if isinstance(stmt, ast.Pass) or simple_noise(stmt):
+        return True
+    if isinstance(stmt, ast.Assign) and all(isinstance(t, ast.Attribute) and isinstance(t.value, ast.Name) and t.value.id == 'self' for t in stmt.targets):
+        return simple_value(stmt.value)
+    if isinstance(stmt, ast.Expr) and isinstance(stmt.value, ast.Call) and isinstance(stmt.value.func, ast.Attribute) and isinstance(stmt.value.func.value, ast.Name) and \
+            stmt.value.func.value.id == 'self' and not stmt.value.args and not stmt.value.keywords:
+        return True
+    return False
 
 
 def _changes_state(func):
